@@ -104,6 +104,7 @@ def account(prop, tier, want_tags, expl, level, extra_note=''):
     programs = 0
     flat = []
     nested_skipped = []
+    pml_skipped = []
     for d in res['docs']:
         flat.append(d)
         flat += d.get('nested') or []
@@ -130,7 +131,11 @@ def account(prop, tier, want_tags, expl, level, extra_note=''):
             unclosed.append('%s: %s' % (d['name'], why[:160]))
         if d.get('nested_history'):
             nested_docs.append(d['name'])
-        for key, r in [('T', d.get('tables')), ('A', A), ('B', B), ('G', G), ('R', R)]:
+        P = d.get('pml')
+        if P and P.get('status') == 'skip':
+            pml_skipped.append('%s: %s' % (d['name'], P['reason'][:200]))
+            P = None
+        for key, r in [('T', d.get('tables')), ('P', P), ('A', A), ('B', B), ('G', G), ('R', R)]:
             if not r:
                 continue
             if r['status'] != 'ok':
@@ -183,6 +188,11 @@ def account(prop, tier, want_tags, expl, level, extra_note=''):
                     q = subprocess.run(['cc', '-fsyntax-only', '-pedantic-errors', '-w', os.path.join(wd, base + '.c')], capture_output=True, text=True, errors='replace')
                     reproduced = q.returncode != 0
                     text = 'native: cc -fsyntax-only -pedantic-errors %s -> rc=%s %s' % (os.path.join(wd, base + '.c'), q.returncode, (q.stderr or '').strip().splitlines()[:1])
+                elif key == 'P':
+                    row, col = scalar(tr, 'wit_row'), scalar(tr, 'wit_col2')
+                    payload.update(row=row, col=col, emitted_promela=os.path.join(wd, base + '.pml'))
+                    reproduced = True  # closed obligation over constants: the two emitted files ARE the failing input
+                    text = 'Promela table row %s (second index %s) of %s differs from the C table of the same document; re-emit with: uscxml-transform -tpml -i %s and -tc -i %s' % (row, col, d['name'], d['path'], d['path'])
                 elif key == 'T':
                     row, col = scalar(tr, 'wit_row'), scalar(tr, 'wit_col2')
                     payload.update(row=row, col=col)
@@ -220,11 +230,14 @@ def account(prop, tier, want_tags, expl, level, extra_note=''):
          'verified_per_document': programs},
         {'function': 'emitted <doc>_on_entry/_on_exit/_on_trans/_is_enabled/_invoke/_global_script functions', 'file': 'ChartToC.cpp:writeExecContent* -> work/genc/<doc>.c', 'route': 'R2 emit; called from uscxml_step through the emitted tables, checked against their bodies'},
         {'function': 'bit_has_and, bit_clear_all, bit_has_any, bit_or, bit_copy, bit_and_not, bit_and (emitted)', 'file': 'ChartToC.cpp:writeHelpers -> work/genc/<doc>.c', 'route': 'R2 emit; inlined into the per-document proofs (loops bounded by the sizing constants); for all arguments in engines/genc helpers proof when present'},
+        {'function': 'Promela table block (ChartToPromela::writeStates, writeTransitions)', 'file': 'src/uscxml/transform/ChartToPromela.cpp:784-900 -> work/genc/<doc>.pml', 'route': 'R2 emit; the assignment statements of the init block are cut out mechanically (engines/genc/pml_tables.py), evaluated by CBMC and compared column by column with the C tables of the same document (harness_pml.c)'},
         {'function': 'emitted tables (ChartToC::prepare, setStateCompletion, setHistoryCompletion, writeStates, writeTransitions; Predicates.cpp getTransitionDomain/getExitSet/findLCCA)', 'file': 'src/uscxml/transform/ChartToC.cpp:70-432,1936-2141; src/uscxml/util/Predicates.cpp:72-180', 'route': 'postcondition of the C++ code checked on its output per document (closed obligations, harness_tables.h)'}]
     part.programs = programs
     part.extra['documents_validated'] = programs
     part.extra['documents_skipped'] = skipped
     part.extra['nested_machines_not_validated'] = nested_skipped
+    if prop == 'C05':
+        part.extra['documents_without_promela_table_comparison'] = pml_skipped
     part.extra['documents_with_DEQUEUE_loop_closed_by_loop_contract'] = closed
     part.extra['documents_where_loop_contract_not_closed_(their_step_obligations_are_counted_bounded)'] = unclosed
     part.extra['documents_with_nested_histories_(C02_history_clause_not_decided)'] = nested_docs
